@@ -3,7 +3,7 @@
    hand-written model of Model/Serve.v computes.  Every theorem about `serve` therefore is a theorem about the
    translated source. *)
 Require Import Base.Bytes Gen.Tables Model.Util Model.Headers Model.Methods Model.Origins Model.Pattern Model.Radix
-  Model.Config Model.Serve Model.MwRt Gen.MwSrc.
+  Model.Config Model.CfgRt Model.Serve Model.MwRt Gen.MwSrc.
 Open Scope bool_scope.
 
 Ltac split_ifs :=
